@@ -18,6 +18,10 @@ package errbase
 //@   props C02 C08
 //@   requires err != nil
 //@   defines tmark(err)
+//@   ensures typeis(err, *opaqueLeaf) ==> result == err.(*opaqueLeaf).details.ErrorTypeMark
+//@   ensures typeis(err, *opaqueLeafCauses) ==> result == err.(*opaqueLeafCauses).details.ErrorTypeMark
+//@   ensures typeis(err, *opaqueWrapper) ==> result == err.(*opaqueWrapper).details.ErrorTypeMark
+//@   ensures (!typeis(err, *opaqueLeaf) && !typeis(err, *opaqueLeafCauses) && !typeis(err, *opaqueWrapper)) ==> result.FamilyName == resolveKey(backwardRegistry, fullNameT(typeof(err))) && result.Extension == (hasMethod(typeof(err), "ErrorKeyMarker() string") ? keyMarkerM(err) : "")
 
 // ---- registries: a registered encoder/decoder is never nil (Register* delete on nil) ----
 
